@@ -325,6 +325,12 @@ func (p *Proxy) handleConnectRequest(ctx *Context, req *http.Request, session *S
 			log.Infof("martian: connection hijacked by response modifier")
 			return errClose
 		}
+		closing := p.Closing()
+		if closing {
+			// No tunnel is set up any more: this answer is the last response on
+			// the connection. Say so.
+			res.Close = true
+		}
 
 		if err := res.Write(brw); err != nil {
 			log.Errorf("martian: got error while writing response back to client: %v", err)
@@ -332,11 +338,23 @@ func (p *Proxy) handleConnectRequest(ctx *Context, req *http.Request, session *S
 		if err := brw.Flush(); err != nil {
 			log.Errorf("martian: got error while flushing response back to client: %v", err)
 		}
+		if closing {
+			return errClose
+		}
 
 		log.Debugf("martian: completed MITM for connection: %s", req.Host)
 
+		// Until the tunnel is set up - its first byte has arrived and, for TLS,
+		// the handshake is done - nothing is in flight on this connection: a
+		// shutdown ends the wait, as it ends the wait for a request.
+		endSetup := p.endOnClosing(conn)
+		defer endSetup()
+
 		b := make([]byte, 1)
 		if _, err := brw.Read(b); err != nil {
+			if p.Closing() {
+				return errClose
+			}
 			log.Errorf("martian: error peeking message through CONNECT tunnel to determine type: %v", err)
 		}
 
@@ -353,9 +371,13 @@ func (p *Proxy) handleConnectRequest(ctx *Context, req *http.Request, session *S
 			tlsconn := tls.Server(&peekedConn{conn, io.MultiReader(bytes.NewReader(b), bytes.NewReader(buf), conn)}, p.mitm.TLSForHost(req.Host))
 
 			if err := tlsconn.Handshake(); err != nil {
+				if p.Closing() {
+					return errClose
+				}
 				p.mitm.HandshakeErrorCallback(req, err)
 				return err
 			}
+			endSetup()
 			if tlsconn.ConnectionState().NegotiatedProtocol == "h2" {
 				return p.mitm.H2Config().Proxy(p.closing, tlsconn, req.URL)
 			}
@@ -390,6 +412,7 @@ func (p *Proxy) handleConnectRequest(ctx *Context, req *http.Request, session *S
 		// Not a TLS handshake: what follows in this tunnel is plain HTTP, whatever
 		// kind of connection the tunnel travels on.
 		session.setPlainTunnel(true)
+		endSetup()
 		// Prepend the previously read data to be read again by http.ReadRequest.
 		brw.Reader.Reset(io.MultiReader(bytes.NewReader(b), bytes.NewReader(buf), conn))
 		// The request that follows is read by the loop that called us: reading
@@ -666,6 +689,27 @@ func (p *Proxy) handle(ctx *Context, conn net.Conn, brw *bufio.ReadWriter) error
 		closing = errClose
 	}
 	return closing
+}
+
+// endOnClosing makes reads from conn fail once the proxy is closing, until the
+// returned function has been called (it may be called more than once). When
+// that function has returned conn is not touched any more.
+func (p *Proxy) endOnClosing(conn net.Conn) func() {
+	stop := make(chan struct{})
+	stopped := make(chan struct{})
+	go func() {
+		defer close(stopped)
+		select {
+		case <-p.closing:
+			conn.SetReadDeadline(time.Unix(1, 0))
+		case <-stop:
+		}
+	}()
+	var once sync.Once
+	return func() {
+		once.Do(func() { close(stop) })
+		<-stopped
+	}
 }
 
 // A peekedConn subverts the net.Conn.Read implementation, primarily so that
